@@ -200,6 +200,23 @@ Definition btreeset_from_iter {A} (cmp : A -> A -> comparison) (es : list A) : l
 Definition btreeset_try_from_iter {A} (cmp : A -> A -> comparison) (es : list A) : outcome (list A) :=
   Ok (btreeset_from_iter cmp es).
 
+(** [BTreeMap::from_iter] under the key type's [Ord]: the entries in ascending key order, a later entry
+    with an equal key replaces the earlier one. *)
+Fixpoint ord_insert_key {K V} (cmp : K -> K -> comparison) (e : K * V) (l : list (K * V)) : list (K * V) :=
+  match l with
+  | [] => [e]
+  | x :: r =>
+      match cmp (fst e) (fst x) with
+      | Lt => e :: l
+      | Eq => e :: r
+      | Gt => x :: ord_insert_key cmp e r
+      end
+  end.
+Definition btreemap_from_iter {K V} (cmp : K -> K -> comparison) (es : list (K * V)) : list (K * V) :=
+  fold_left (fun acc e => ord_insert_key cmp e acc) es [].
+Definition btreemap_try_from_iter {K V} (cmp : K -> K -> comparison) (es : list (K * V)) : outcome (list (K * V)) :=
+  Ok (btreemap_from_iter cmp es).
+
 (** [v.remove(i)]: the element and the vector without it; panics when [i] is out of range *)
 Definition vec_remove {A} (l : list A) (i : N) : outcome (A * list A) :=
   match nth_error l (N.to_nat i) with
